@@ -9,6 +9,9 @@ done={
  'C02':('model_checking',MC,"same executions as C01; the instrumented handler log and the final application state are compared with the reference server, with and without authorization"),
  'C03':('exploration',EX,"finite argument spaces enumerated completely (quick: boundary lattice, thorough: all 2^32 constructor arguments); every poll_write of the production client loop compared with the reference encoder"),
  'C04':('exploration',EX,"reply space per request kind enumerated (all function bytes x lengths, all 1-byte deviations, all echo values in thorough) and judged by a reference reply decoder"),
+ 'C05':('model_checking',MC,"all concatenations of <= N library frames x all chunkings in the bound (uniform sizes, <= 2 cuts at every position, all partitions of short streams), both roles, judged by a stream-level reference framer"),
+ 'C06':('fault_enumeration',EX,"every 1-bit, 2-bit and <=16-bit burst corruption (within stated windows for long frames) of a request/response library, both roles; independent bit-wise CRC-16 in the reference framer"),
+ 'C07':('exploration',EX,"exhaustive 1-deviation (thorough: 2-deviation) neighbourhood of valid traffic plus all short byte strings, 4 role x framing combinations, decode levels, with panics caught per poll, a poll budget, a wall-clock watchdog for spins inside one poll, and a shutdown check"),
  'C08':('model_checking',MC,"all request sequences up to depth D x policy set (all 256 per-function masks in thorough) x roles; interleaved authorization/handler log, replies and state compared with the reference server"),
  'C17':('model_checking',MC,"all 256 destinations x 27 request kinds x 4 unit maps x 2 framings on fresh sessions plus all sequences up to depth D over a 12-symbol broadcast/unicast alphabet"),
 }
